@@ -359,7 +359,7 @@ def compare_scen(ctx, recs, cases, exps):
                 old = sum(x << (16 * k) for k, x in enumerate(r['pre']['vcc']))
                 got = sum(x << (16 * k) for k, x in enumerate(r['post']['vcc']))
                 want = sum(x << (16 * k) for k, x in enumerate(e['mask']))
-                if got not in (want, want | (old & ~ex)):
+                if got != want:      # inactive lanes: 0
                     bad.append((r, 'vcc'))
     return bad
 
